@@ -58,7 +58,7 @@ RULE = ("one evaluation = one call of a public entry point; streams: locate_drop
         "emulsions, dimension mismatch), polar_coordinates, tracking (both methods, +-grid, 3 cut-offs), tracker handles; "
         "grids: Cartesian 1-3 d, 1..6 cells per axis, every periodicity mask, isotropic / anisotropic spacing, polar, spherical, "
         "cylindrical +- periodic_z (1..6 cells); fields: constants 0 / 1 / 0.7, single bright cell, all ones, binary noise, "
-        "smooth noise, off-axis-only blobs, rendered droplets, each also affinely rescaled (x1000, -5); options: the full "
+        "smooth noise, off-axis-only blobs, rendered droplets, each also affinely rescaled (x1000 - 5, x1 + 5, x0.25 + 5); options: the full "
         "documented value sets (threshold 7, minimal_radius 4, interface_width 3, modes 5, refine off + 3 refine_args); "
         "non-trivial = at least one droplet returned / a non-constant rendering / an exception; distinct by the full call")
 
@@ -593,8 +593,8 @@ def gen_field(rng, gs):
         fs["p"] = rng.choice([0.3, 0.6, 1.0])
     elif kind == "droplets":
         fs["droplets"] = inside_droplets(rng, gs, rng.choice([1, 1, 2, 3]))
-    if rng.random() < 0.25:
-        fs["a"], fs["b"] = 1000.0, -5.0
+    if rng.random() < 0.3:   # affinely rescaled: large range around zero / small range on a positive offset
+        fs["a"], fs["b"] = rng.choice([(1000.0, -5.0), (1000.0, -5.0), (1.0, 5.0), (0.25, 5.0)])
     return fs
 
 
@@ -606,7 +606,7 @@ def gen_options(rng, refine: bool):
 
 def field_kind(fs: dict) -> str:
     k = fs["kind"] + (f"={fs['value']}" if fs["kind"] == "const" else "")
-    return k + (" rescaled" if "a" in fs else "")
+    return k + (f" *{fs['a']:g}{fs['b']:+g}" if "a" in fs else "")
 
 
 def gen_locate_cases(ctx, rng):
